@@ -27,6 +27,7 @@ type hist struct {
 	twin     *node // fresh build from a permuted listing, same downs applied: C02
 	rampTill map[string]time.Time // addrInfo -> end of slow-start ramp (model)
 	nops     int
+	fails    map[ident]int // C09: failure marks the harness made (SetAvail(true) clears them, as documented in setAvail)
 	log      []string
 }
 
@@ -256,6 +257,9 @@ func (h *hist) flip() {
 	b.Up = !b.Up
 	if rb := h.main.realBackend(c.Name, su.Name, b.AddrInfo()); rb != nil {
 		rb.SetAvail(b.Up)
+		if b.Up && h.fails != nil {
+			delete(h.fails, ident{c.Name, su.Name, b.AddrInfo()})
+		}
 	}
 	if h.twin != nil {
 		if rb := h.twin.realBackend(c.Name, su.Name, b.AddrInfo()); rb != nil {
